@@ -478,6 +478,169 @@ theorem measure_decreases {s s' : State} {e : Event} (h : Reachable s) (he : e.i
         simp [workLeft, State.clearObs, hp1]
         omega
 
+/-! ### `failed` is the history of failing actions -/
+
+/-- what an event appends to the failure history of monitor `i`: the action that was executing
+    (head of the trigger sequence) when `ruleReturns i false` happens, nothing otherwise -/
+def failedDelta (e : Event) (i : Nat) (m : Mon) : List Nat :=
+  match e with
+  | .ruleReturns j ok => if j = i ∧ ok = false then m.todo.take 1 else []
+  | _ => []
+
+theorem hist_setMon {s : State} {i j : Nat} {m mj x : Mon} (d : List Nat)
+    (hm : s.mons[i]? = some m) (hj : s.mons[j]? = some mj)
+    (hx : x.failed = mj.failed ++ d) :
+    ∃ m', (s.setMon j x).mons[i]? = some m' ∧ m'.failed = m.failed ++ (if j = i then d else []) := by
+  obtain ⟨hl, _⟩ := getElem_of_get? hj
+  by_cases hji : j = i
+  · subst hji
+    rw [hm] at hj
+    cases hj
+    refine ⟨x, ?_, by simp [hx]⟩
+    show (s.mons.set j x)[j]? = some x
+    simp [hl]
+  · refine ⟨m, ?_, by simp [hji]⟩
+    show (s.mons.set j x)[i]? = some m
+    rw [List.getElem?_set]
+    simp [hji, hm]
+
+/-- Every step changes the `failed` list of every existing monitor exactly by `failedDelta`: it is
+    the list of the rules whose action returned an error under that monitor, in order, and nothing
+    else ever writes to it (new monitors start with the empty list). Together with `errors_exact`:
+    the report at the return of the wait is exactly the failed (event, rule) pairs. -/
+theorem failed_is_history {s s' : State} {e : Event} (hs : step s e = some s') {i : Nat} {m : Mon}
+    (hm : s.mons[i]? = some m) :
+    ∃ m', s'.mons[i]? = some m' ∧ m'.failed = m.failed ++ failedDelta e i m := by
+  have same : ∀ {t : State}, t.mons = s.mons → ∃ m', t.mons[i]? = some m' ∧ m'.failed = m.failed ++ [] :=
+    fun ht => ⟨m, by rw [ht]; exact hm, by simp⟩
+  have viaSet : ∀ {j : Nat} {mj x : Mon}, s.mons[j]? = some mj → x.failed = mj.failed →
+      ∃ m', (s.setMon j x).mons[i]? = some m' ∧ m'.failed = m.failed ++ [] := by
+    intro j mj x hj hx
+    have := hist_setMon (i := i) (m := m) [] hm hj (by simpa using hx)
+    simpa using this
+  cases e with
+  | register =>
+    simp only [step] at hs
+    split at hs; · cases hs
+    split at hs
+    · split at hs
+      · cases hs; exact same rfl
+      · cases hs
+    · cases hs
+  | addEvent j trig rules =>
+    simp only [step] at hs
+    split at hs
+    · rename_i mj hj
+      split at hs
+      · split at hs
+        · split at hs
+          · cases hs; exact viaSet hj rfl
+          · cases hs
+        · cases hs; exact viaSet hj rfl
+      all_goals cases hs
+    · cases hs
+  | newChild p =>
+    simp only [step] at hs
+    split at hs
+    · split at hs
+      · cases hs
+        obtain ⟨hl, _⟩ := getElem_of_get? hm
+        refine ⟨m, ?_, by simp [failedDelta]⟩
+        show (s.mons ++ _)[i]? = some m
+        rw [List.getElem?_append_left hl]
+        exact hm
+      · cases hs
+    · cases hs
+  | pop w j =>
+    simp only [step] at hs
+    split at hs
+    · split at hs
+      · rename_i mj hj
+        split at hs
+        · cases hs; exact viaSet hj rfl
+        · cases hs
+      · cases hs
+    · cases hs
+  | ruleReturns j ok =>
+    simp only [step] at hs
+    split at hs
+    · rename_i mj hj
+      split at hs
+      · rename_i w r rest hph htodo
+        cases hs
+        cases ok with
+        | true =>
+          have := viaSet (x := { mj with todo := (if !true && s.failFirst then [] else rest), returned := mj.returned ++ [r], failed := (if true then mj.failed else mj.failed ++ [r]) }) hj (by simp)
+          simpa [failedDelta] using this
+        | false =>
+          have := hist_setMon (i := i) (m := m) (x := { mj with todo := (if !false && s.failFirst then [] else rest), returned := mj.returned ++ [r], failed := (if false then mj.failed else mj.failed ++ [r]) }) [r] hm hj (by simp)
+          obtain ⟨m', h1, h2⟩ := this
+          refine ⟨m', h1, ?_⟩
+          rw [h2]
+          simp only [failedDelta]
+          by_cases hji : j = i
+          · subst hji
+            rw [hm] at hj
+            cases hj
+            simp [htodo]
+          · simp [hji]
+      · cases hs
+    · cases hs
+  | taskDone j =>
+    simp only [step] at hs
+    split at hs
+    · rename_i mj hj
+      split at hs
+      · split at hs
+        · cases hs; exact viaSet hj rfl
+        · cases hs; exact viaSet hj rfl
+      · cases hs
+    · cases hs
+  | setErrors j =>
+    simp only [step] at hs
+    split at hs
+    · rename_i mj hj
+      split at hs
+      · cases hs; exact viaSet hj rfl
+      all_goals cases hs
+    · cases hs
+  | errFinish j =>
+    simp only [step] at hs
+    split at hs
+    · rename_i mj hj
+      split at hs
+      · cases hs; exact viaSet hj rfl
+      all_goals cases hs
+    · cases hs
+  | notified j =>
+    simp only [step] at hs
+    split at hs
+    · rename_i mj hj
+      split at hs
+      · cases hs; exact viaSet hj rfl
+      all_goals cases hs
+    · cases hs
+  | dropQueue =>
+    simp only [step] at hs
+    split at hs
+    · cases hs; exact same rfl
+    · cases hs
+  | post =>
+    simp only [step] at hs
+    split at hs
+    · cases hs
+    · cases hs; exact same rfl
+  | observerRuns o =>
+    cases o <;> simp only [step] at hs <;> split at hs <;> first | cases hs; done | (cases hs; exact same rfl)
+  | waitReturns =>
+    simp only [step] at hs
+    split at hs
+    · cases hs; exact same rfl
+    · cases hs
+  | allErrors =>
+    simp only [step] at hs
+    cases hs; exact same rfl
+
 /-! ### several cascades in flight -/
 
 theorem reachable_step {s s' : State} {e : Event} (h : Reachable s) (hs : step s e = some s') :
